@@ -8,6 +8,7 @@ CONSTANTS
   TOLR = 0
   TOLP = 0
   EMIT = FALSE
+  EMITSOL = FALSE
 INVARIANT ClauseInv
 INVARIANT InvCellsDisjoint
 INVARIANT InvCellsInDie
